@@ -3,7 +3,7 @@
 From Coq Require Import List NArith Bool.
 Import ListNotations.
 
-Definition bytes := list N.
+Notation bytes := (list N) (only parsing).
 
 Fixpoint bytes_eqb (a b : bytes) : bool :=
   match a, b with
